@@ -46,7 +46,7 @@ let settings_of spec =
 
 let op_code op =
   match op with
-  | "svg:to_svg" -> 0 | "svg:pretty" -> 1 | "svg:compressed" -> 2 | "svg:settings" -> 3 | "svg:override" -> 4
+  | "svg:to_svg" -> 0 | "svg:pretty" -> 1 | "svg:compressed" -> 2 | "svg:settings" -> 3 | "svg:rerender" -> 3 | "svg:override" -> 4
   | "cells" -> 10 | "spans" -> 11 | "merged" -> 12 | "mergedspan" -> 13 | "contacts" -> 14
   | "frags" -> 15 | "fragspans" -> 16 | "behav" -> 17
   | _ -> failwith ("unknown op " ^ op)
@@ -133,7 +133,7 @@ let run_stage id op spec text =
   | "endorse" | "endorsespan" -> text_of false (op_endorse (op = "endorsespan") (cells_of (String.trim text)))
   | _ ->
     (* emit:<entry> *)
-    let entry = (match op with "emit:to_svg" -> 0 | "emit:pretty" -> 1 | "emit:compressed" -> 2 | "emit:settings" -> 3
+    let entry = (match op with "emit:to_svg" -> 0 | "emit:pretty" -> 1 | "emit:compressed" -> 2 | "emit:settings" -> 3 | "emit:rerender" -> 3
                               | "emit:override" -> 4 | _ -> failwith ("unknown op " ^ op)) in
     let acc = ref [] and groups = ref [] and esc = ref [] and legend = ref [] and br = ref { cx = Z0; cy = Z0 } in
     List.iter (fun sec ->
